@@ -296,6 +296,51 @@ def expandcanonicalSrc (σ : K) (reversed : Bool) (den : String) (R : RF K) : Op
     some (.mul (.mul (expandTerms R.A cs 0) (delayFactor σ R)) (undefFactor R))
   else none
 
+/-! ## `Ratfun.canonical` with its unit-factor branches -/
+
+/-- the constants `0`, `1` of the carrier named by a source integer (anything else: no such constant / no such test) -/
+def intK (i : Int) : Option K := if i = 1 then some 1 else if i = 0 then some 0 else none
+
+/-- `P.as_expr() == c` for a polynomial `P` and the source constant `c` -/
+def polyIsConst (p : List K) (c : Int) : Bool :=
+  match intK (K := K) c with
+  | some k => trim p == (if k = 0 then [] else [k])
+  | none => false
+
+/-- `g == c` for the source constant `c` -/
+def eqConst (g : K) (c : Int) : Bool :=
+  match intK (K := K) c with
+  | some k => decide (g = k)
+  | none => false
+
+/-- `Ratfun.canonical(factor_const)` WITH the branches of the code: `if D == dSkip: expr = N`, `if N == nSkip: expr = 1/D`
+    (factor_const=False only), `if K != kSkip: expr = K·expr` (factor_const=True; `K` is the gain times the delay factor, so
+    `K == 1` needs gain 1 AND no delay), and the undefined factor attached where the source attaches it:
+    "top" = unconditionally, "gain" = inside the `K != …` branch, anything else = nowhere. -/
+def canonicalBr (σ : K) (factorConst : Bool) (skip : List Int) (undefAt : String) (R : RF K) : RExpr K :=
+  let kSkip := skip.getD 0 (-99)
+  let dSkip := skip.getD 1 (-99)
+  let nSkip := skip.getD 2 (-99)
+  if factorConst then
+    let g := lc R.B / lc R.A
+    let N := monic R.B
+    let D := monic R.A
+    let core : RExpr K := if polyIsConst D dSkip then .poly N else .mul (.poly N) (.inv (.poly D))
+    let kIs : Bool := decide (R.delay = 0) && eqConst g kSkip
+    let gain : RExpr K := .mul (.const g) (delayFactor σ R)
+    if undefAt == "top" then .mul (if kIs then core else .mul gain core) (undefFactor R)
+    else if undefAt == "gain" then (if kIs then core else .mul (.mul gain (undefFactor R)) core)
+    else (if kIs then core else .mul gain core)
+  else
+    let N := smul (1 / lc R.A) R.B
+    let D := monic R.A
+    let core : RExpr K :=
+      if polyIsConst D dSkip then .poly N
+      else if polyIsConst N nSkip then .inv (.poly D)
+      else .mul (.poly N) (.inv (.poly D))
+    let e : RExpr K := .mul core (delayFactor σ R)
+    if undefAt == "top" then .mul e (undefFactor R) else e
+
 /-! ## root dictionaries -/
 
 /-- `polesdict[key] += n` (`key in polesdict`) / `polesdict[key] = n` -/
